@@ -104,6 +104,8 @@ pub enum M {
     /// compressed stream: the first block starts with a "large window" brotli header declaring a window of
     /// 2^wbits bytes followed by a non-final uncompressed meta-block of 16 bytes (5 bytes overwritten)
     BrotliWindow(u8),
+    /// the same at the start of the SECOND compressed block (the decoders are re-created between blocks)
+    BrotliWindow2(u8),
     /// raw random bytes (supplementary, seeded): kind 0 = pure random, 1 = magic+version then random,
     /// 2 = the base's valid header then random body
     Random(u64, u8),
@@ -383,6 +385,28 @@ pub fn apply(b: &Base, ms: &[M]) -> Option<Vec<u8>> {
                 l1[..5].copy_from_slice(&[0x11, *wbits & 0x3F, 0x1E, 0x00, 0x02]);
                 touched1 = true;
             }
+            M::BrotliWindow2(wbits) => {
+                if !b.layers.compressed() || l1.len() < 16 {
+                    return None;
+                }
+                // start of the second block = size of the first one, taken from the sizes table
+                let len = u32::from_le_bytes(l1[l1.len() - 4..].try_into().ok()?) as usize;
+                if len + 4 > l1.len() || len < 16 {
+                    return None;
+                }
+                let start = l1.len() - 4 - len;
+                let n = u64::from_le_bytes(l1[start..start + 8].try_into().ok()?) as usize;
+                if n < 2 {
+                    return None;
+                }
+                let first = u32::from_le_bytes(l1[start + 8..start + 12].try_into().ok()?) as usize;
+                let second = u32::from_le_bytes(l1[start + 12..start + 16].try_into().ok()?) as usize;
+                if second < 5 || first + 5 > start {
+                    return None;
+                }
+                l1[first..first + 5].copy_from_slice(&[0x11, *wbits & 0x3F, 0x1E, 0x00, 0x02]);
+                touched1 = true;
+            }
             M::FooterSplice => {
                 if !b.layers.compressed() || l1.len() < 4 || l2.len() < 4 {
                     return None;
@@ -472,6 +496,9 @@ pub fn mutation_sets(b: &Base, bi: usize, thorough: bool) -> Vec<Vec<M>> {
         for w in [10u8, 24, 25, 28, 30] {
             ops.push(M::BrotliWindow(w));
         }
+        for w in [25u8, 30] {
+            ops.push(M::BrotliWindow2(w));
+        }
     }
     let nb = map.blocks.len();
     for i in 0..nb {
@@ -508,7 +535,7 @@ pub fn mutation_sets(b: &Base, bi: usize, thorough: bool) -> Vec<Vec<M>> {
         .filter(|m| match m {
             M::Field { val, .. } => [0u64, 0xFFFF_FFFF, 0x8000_0000_0000_0000, u64::MAX].contains(val),
             M::FieldRel { delta, .. } => *delta == 1,
-            M::FooterSplice | M::OffsetsRepeat(1000) | M::TailGarbage(4) | M::BrotliWindow(30) => true,
+            M::FooterSplice | M::OffsetsRepeat(1000) | M::TailGarbage(4) | M::BrotliWindow(30) | M::BrotliWindow2(30) => true,
             M::BlockDel(_) => true,
             _ => false,
         })
@@ -947,7 +974,7 @@ pub fn run(started: Instant) -> i32 {
         rep,
         Meta {
             level: "fault_enumeration",
-            rule: "20 base archives (5 programs x 4 layer combos, real writer); mutation sets: k=1 exhaustive on archive bytes (every truncation; every byte x {8 bit flips, 00, FF, +1, -1}); k=1 structured on the decoded streams, re-encoded with valid compression and valid tags (every integer field of block headers, file index, sizes table and both length words set to 16 boundary values (64 KiB + 1, 1 MiB, 16 MiB, 64 MiB, 128 MiB, 256 MiB, 512 MiB - 1 just under the deserialisation limit, and the 32/64-bit edges) and to len-1/len/len+1; every block delete/duplicate-at/swap; offsets list = N copies of a foreign offset, N in {10,1000,300000}; trailing garbage; footer splice between layers; first compressed block starting with a large-window brotli header declaring a window of 2^{10,24,25,28,30} bytes); 300 (thorough 1500) seeded random byte strings per base (pure, after a valid magic, after a valid header - supplementary); k=2 all pairs over the hostile structured operators (3 bases quick / 11 thorough); k=3 triples (thorough). On each input: open, list, read every file with 7-byte reads, get_hash, linear_extract, repair in both modes, and - when a call returned an error - every sequence of up to 2 (thorough 3) further calls on the same reader, then drop. Each input runs in a worker process (crash attribution), under catch_unwind, a 60 s watchdog and a counting allocator (ceiling 96 MiB + 64 x input when the header announces compression, 8 MiB + 64 x input otherwise). non-trivial = distinct mutated inputs".to_string(),
+            rule: "20 base archives (5 programs x 4 layer combos, real writer); mutation sets: k=1 exhaustive on archive bytes (every truncation; every byte x {8 bit flips, 00, FF, +1, -1}); k=1 structured on the decoded streams, re-encoded with valid compression and valid tags (every integer field of block headers, file index, sizes table and both length words set to 16 boundary values (64 KiB + 1, 1 MiB, 16 MiB, 64 MiB, 128 MiB, 256 MiB, 512 MiB - 1 just under the deserialisation limit, and the 32/64-bit edges) and to len-1/len/len+1; every block delete/duplicate-at/swap; offsets list = N copies of a foreign offset, N in {10,1000,300000}; trailing garbage; footer splice between layers; first (2^{10,24,25,28,30}) or second (2^{25,30}) compressed block starting with a large-window brotli header); 300 (thorough 1500) seeded random byte strings per base (pure, after a valid magic, after a valid header - supplementary); k=2 all pairs over the hostile structured operators (3 bases quick / 11 thorough); k=3 triples (thorough). On each input: open, list, read every file with 7-byte reads, get_hash, linear_extract, repair in both modes, and - when a call returned an error - every sequence of up to 2 (thorough 3) further calls on the same reader, then drop. Each input runs in a worker process (crash attribution), under catch_unwind, a 60 s watchdog and a counting allocator (ceiling 96 MiB + 64 x input when the header announces compression, 8 MiB + 64 x input otherwise). non-trivial = distinct mutated inputs".to_string(),
             exhaustive: true,
             bounds: json!({"bases": bases.len(), "cases": total}),
             assumptions: vec!["scaled constants; overflow checks on (profile of the suite)".to_string(), "inner streams are re-encrypted with the archive's own key by an independent AES-GCM implementation (equivalent to an attacker producing an archive for the victim's public key)".to_string()],
